@@ -71,7 +71,7 @@ pub fn spec_for(id: &str) -> Option<Spec> {
                     && has(f, F_LEADER_CHANGE_AFTER_COMMIT | F_TRUNCATION | F_CRASH_LOST | F_SNAP_INSTALLED | F_CONF_APPLIED)
             },
             quick_cases: 60000,
-            thorough_cases: 1_000_000,
+            thorough_cases: 3_000_000,
             ops_quick: (60, 260),
             ops_thorough: (60, 500),
             repro_options: None,
@@ -84,7 +84,7 @@ pub fn spec_for(id: &str) -> Option<Spec> {
             rule: "non-trivial = >=2 distinct (term, leader) pairs AND (a voter crashed with an un-fsynced term/vote, or vote traffic was duplicated / delivered to a later incarnation, or a config change was applied)",
             nontrivial: |_s, f| has(f, F_TWO_LEADERS) && has(f, F_VOTE_UNSYNCED_CRASH | F_VOTE_DUP_OR_LATE | F_CONF_APPLIED),
             quick_cases: 60000,
-            thorough_cases: 1_000_000,
+            thorough_cases: 3_000_000,
             ops_quick: (60, 260),
             ops_thorough: (60, 500),
             repro_options: None,
@@ -97,7 +97,7 @@ pub fn spec_for(id: &str) -> Option<Spec> {
             rule: "non-trivial = a leader of term T observed while an entry committed in an earlier term exists and another node's log differs from the leader's, or a (pre-)vote request was decided while voter and candidate logs differed",
             nontrivial: |_s, f| has(f, F_LEADER_WITH_DIVERGENT_PEER | F_VOTE_DECIDED_VS_BETTER_LOG),
             quick_cases: 60000,
-            thorough_cases: 1_000_000,
+            thorough_cases: 3_000_000,
             ops_quick: (60, 260),
             ops_thorough: (60, 500),
             repro_options: None,
@@ -113,7 +113,7 @@ pub fn spec_for(id: &str) -> Option<Spec> {
                 rule: "non-trivial = a leader commit advance at which the leader's own disk did not hold the index, or some voter's volatile log held it but its disk did not, or the configuration was joint",
                 nontrivial: |_s, f| has(f, F_COMMIT_LEADER_DISK_BEHIND | F_COMMIT_VOTER_VOLATILE_ONLY | F_COMMIT_JOINT),
                 quick_cases: 60000,
-                thorough_cases: 1_000_000,
+                thorough_cases: 3_000_000,
                 ops_quick: (60, 260),
                 ops_thorough: (60, 500),
                 repro_options: None,
@@ -127,7 +127,7 @@ pub fn spec_for(id: &str) -> Option<Spec> {
             rule: "non-trivial = a truncating append occurred, or a leader crashed holding entries it had not persisted, or an append was split by max_size_per_msg",
             nontrivial: |_s, f| has(f, F_TRUNCATION | F_LEADER_CRASH_UNPERSISTED_SENT | F_SPLIT_APPEND),
             quick_cases: 60000,
-            thorough_cases: 1_000_000,
+            thorough_cases: 3_000_000,
             ops_quick: (60, 260),
             ops_thorough: (60, 500),
             repro_options: None,
@@ -143,7 +143,7 @@ pub fn spec_for(id: &str) -> Option<Spec> {
                 rule: "non-trivial = a crash lost un-fsynced state on a node with an unreleased promise pending, or a message was released while the node's disk lagged its volatile state",
                 nontrivial: |_s, f| has(f, F_PROMISE_PENDING_LOST | F_RELEASE_WHILE_DISK_LAGS),
                 quick_cases: 60000,
-                thorough_cases: 1_000_000,
+                thorough_cases: 3_000_000,
                 ops_quick: (60, 260),
                 ops_thorough: (60, 500),
                 repro_options: None,
@@ -164,7 +164,7 @@ pub fn spec_for(id: &str) -> Option<Spec> {
                         && has(f, F_MULTI_OUTSTANDING_READY | F_TRUNC_BETWEEN_READIES | F_SNAPSHOT_READY | F_PAGINATION | F_RESTART_MID_BATCH)
                 },
                 quick_cases: 50000,
-                thorough_cases: 1_000_000,
+                thorough_cases: 3_000_000,
                 ops_quick: (60, 260),
                 ops_thorough: (60, 500),
                 repro_options: None,
@@ -183,7 +183,7 @@ pub fn spec_for(id: &str) -> Option<Spec> {
                 rule: "non-trivial = a read state was returned in a case where, between issue and answer, a leader change or a partition occurred, or the read was forwarded, or a heartbeat response was duplicated",
                 nontrivial: |_s, f| has(f, F_READ_ANSWERED_NONTRIVIAL),
                 quick_cases: 96000,
-                thorough_cases: 1_000_000,
+                thorough_cases: 3_000_000,
                 ops_quick: (60, 260),
                 ops_thorough: (60, 500),
                 repro_options: None,
@@ -197,7 +197,7 @@ pub fn spec_for(id: &str) -> Option<Spec> {
             rule: "non-trivial = >=2 membership proposals of which >=1 arrived while another was unapplied or while joint and >=1 was applied on >=2 nodes; or a restart/snapshot restored a joint configuration",
             nontrivial: |_s, f| (has(f, F_CONF_WHILE_PENDING) && has(f, F_CONF_APPLIED_TWO_NODES)) || has(f, F_JOINT_RESTORED),
             quick_cases: 60000,
-            thorough_cases: 1_000_000,
+            thorough_cases: 3_000_000,
             ops_quick: (60, 260),
             ops_thorough: (60, 500),
             repro_options: None,
@@ -215,7 +215,7 @@ pub fn spec_for(id: &str) -> Option<Spec> {
                 rule: "non-trivial = an inflight window became full, or a capacity change hit a non-empty window, or a rejection moved next_idx, or an append was split by size, or a proposal was refused for size",
                 nontrivial: |_s, f| has(f, F_WINDOW_FULL | F_CAP_CHANGE_NONEMPTY | F_REJECT_MOVED_NEXT | F_SPLIT_APPEND | F_REFUSED_FOR_SIZE),
                 quick_cases: 60000,
-                thorough_cases: 1_000_000,
+                thorough_cases: 3_000_000,
                 ops_quick: (60, 260),
                 ops_thorough: (60, 500),
                 repro_options: None,
@@ -232,7 +232,7 @@ pub fn spec_for(id: &str) -> Option<Spec> {
                 rule: "non-trivial = a snapshot was installed, ignored as stale or fast-forwarded in a case that also has a later append to that follower",
                 nontrivial: |_s, f| has(f, F_SNAP_THEN_APPEND) || (has(f, F_SNAP_IGNORED_OR_FF) && has(f, F_SNAP_INSTALLED)),
                 quick_cases: 60000,
-                thorough_cases: 1_000_000,
+                thorough_cases: 3_000_000,
                 ops_quick: (60, 260),
                 ops_thorough: (60, 500),
                 repro_options: None,
@@ -250,7 +250,7 @@ pub fn spec_for(id: &str) -> Option<Spec> {
                 rule: "non-trivial = pre-vote requests were delivered to nodes in >=2 different roles, or (lockstep scenario) minority nodes reached PreCandidate >=2 times and a (pre-)vote request reached a majority member",
                 nontrivial: |_s, f| has(f, F_PREVOTE_NONTRIVIAL),
                 quick_cases: 60000,
-                thorough_cases: 1_000_000,
+                thorough_cases: 3_000_000,
                 ops_quick: (60, 260),
                 ops_thorough: (60, 500),
                 repro_options: None,
@@ -268,7 +268,7 @@ pub fn spec_for(id: &str) -> Option<Spec> {
                 rule: "non-trivial = a transfer was issued to a lagging target, or aborted by timeout, or competing requests arrived, or it was forwarded through a follower",
                 nontrivial: |_s, f| has(f, F_TRANSFER_NONTRIVIAL),
                 quick_cases: 60000,
-                thorough_cases: 1_000_000,
+                thorough_cases: 3_000_000,
                 ops_quick: (60, 260),
                 ops_thorough: (60, 500),
                 repro_options: None,
@@ -286,7 +286,7 @@ pub fn spec_for(id: &str) -> Option<Spec> {
                 rule: "non-trivial = case with >=1 crash or applied membership change and >=30 effective operations",
                 nontrivial: |_s, f| has(f, F_CRASH_OR_CONF_AND_30),
                 quick_cases: 60000,
-                thorough_cases: 1_000_000,
+                thorough_cases: 3_000_000,
                 ops_quick: (60, 260),
                 ops_thorough: (60, 500),
                 repro_options: None,
@@ -304,7 +304,7 @@ pub fn spec_for(id: &str) -> Option<Spec> {
                 rule: "non-trivial = the fault prefix left >=1 of {follower in Snapshot state, full inflight window, paused probe, pending transfer, unapplied or joint config, >=2 nodes needing restart, divergent uncommitted tails}",
                 nontrivial: |_s, f| has(f, F_LIVENESS_NONTRIVIAL),
                 quick_cases: 60000,
-                thorough_cases: 1_000_000,
+                thorough_cases: 3_000_000,
                 ops_quick: (30, 150),
                 ops_thorough: (40, 300),
                 repro_options: Some(crate::world::NO_F8_EXCLUSION),
